@@ -44,6 +44,14 @@ func VerifC19_ModelSelfTest() {
 	r3, ok3 := strings.CutSuffix(s, "=")
 	vObserve("cutsuffix", r3)
 	vObserve("cutsuffixok", ok3)
+	ib := strings.IndexByte(s, '.')
+	vObserve("indexbyte", ib)
+	if ib >= 0 {
+		vAssert("indexbyte/points-at-byte", s[ib] == '.')
+		vAssert("indexbyte/first", !strings.Contains(s[:ib], "."))
+	}
+	vObserve("indexrune", strings.IndexRune(s, 'é'))
+	vObserve("containsrune", strings.ContainsRune(s, '='))
 	_, have := os.LookupEnv("VERIF_NOT_SET_ANYWHERE")
 	vObserve("lookupenv", have)
 	vObserve("runes", utf8.RuneCountInString("héllo"))
